@@ -11,7 +11,7 @@ Composition of two results that were proved separately:
   `4·10⁻⁶` of the exact reference matrix applied to those inputs.
 
 Hence, for all 16 ordered pairs and **all 2²⁴ opaque 8-bit pixels** `(R, G, B)`: the linear value the
-pipeline hands to the destination encoder is within `5.2·10⁻⁶` of
+pipeline hands to the destination encoder is within `5.3·10⁻⁶` of
 
     M_dst⁻¹ · Bradford(W_src → W_dst) · M_src · EOTF_src(R/255, G/255, B/255)        (over ℝ)
 
@@ -107,9 +107,9 @@ theorem C04_value_at_encoder (src dst : Space) (R G B : Nat) (hR : R < 256) (hG 
     let c := pipeLin src dst (pairAdapt src dst) (fromNRGBA src R G B 255).1
     let M := pairRef src dst
     let e := fun (x : Nat) => src.eotf ((x : ℝ) / 255)
-    |((toQ b32 c.r : ℚ) : ℝ) - rowApplyR (qmRow M 0) (e R) (e G) (e B)| ≤ 52 / 10000000 ∧
-    |((toQ b32 c.g : ℚ) : ℝ) - rowApplyR (qmRow M 1) (e R) (e G) (e B)| ≤ 52 / 10000000 ∧
-    |((toQ b32 c.b : ℚ) : ℝ) - rowApplyR (qmRow M 2) (e R) (e G) (e B)| ≤ 52 / 10000000 := by
+    |((toQ b32 c.r : ℚ) : ℝ) - rowApplyR (qmRow M 0) (e R) (e G) (e B)| ≤ 53 / 10000000 ∧
+    |((toQ b32 c.g : ℚ) : ℝ) - rowApplyR (qmRow M 1) (e R) (e G) (e B)| ≤ 53 / 10000000 ∧
+    |((toQ b32 c.b : ℚ) : ℝ) - rowApplyR (qmRow M 2) (e R) (e G) (e B)| ≤ 53 / 10000000 := by
   intro c M e
   obtain ⟨fR, bR, cR⟩ := dec8_fin src R hR
   obtain ⟨fG, bG, cG⟩ := dec8_fin src G hG
@@ -127,11 +127,13 @@ theorem C04_value_at_encoder (src dst : Space) (R G B : Nat) (hR : R < 256) (hG 
   rw [List.all_eq_true] at hrows
   have key : ∀ k, k < 3 → ∀ (x : ℚ), |x - rowApply (qmRow M k) (toQ b32 (dec8 src R)) (toQ b32 (dec8 src G)) (toQ b32 (dec8 src B))|
         ≤ 4 / 1000000 * 1 + 1 / 10 ^ 40 →
-      |(x : ℝ) - rowApplyR (qmRow M k) (e R) (e G) (e B)| ≤ 52 / 10000000 := by
+      |(x : ℝ) - rowApplyR (qmRow M k) (e R) (e G) (e B)| ≤ 53 / 10000000 := by
     intro k hk x hx
     have hrow := hrows k (by simp; omega)
     simp only [decide_eq_true_eq] at hrow
-    have lip := rowApplyR_lipschitz (qmRow M k) _ _ _ _ _ _ _ aR aG aB hrow
+    have lip : |rowApplyR (qmRow M k) ((toQ b32 (dec8 src R) : ℚ) : ℝ) ((toQ b32 (dec8 src G) : ℚ) : ℝ) ((toQ b32 (dec8 src B) : ℚ) : ℝ) -
+        rowApplyR (qmRow M k) (e R) (e G) (e B)| ≤ 4 * (3 / 10000000) :=
+      rowApplyR_lipschitz (qmRow M k) _ _ _ _ _ _ _ aR aG aB hrow
     have hx' : |(x : ℝ) - rowApplyR (qmRow M k) ((toQ b32 (dec8 src R) : ℚ) : ℝ) ((toQ b32 (dec8 src G) : ℚ) : ℝ) ((toQ b32 (dec8 src B) : ℚ) : ℝ)|
         ≤ 4 / 1000000 * 1 + 1 / 10 ^ 40 := by
       rw [← rowApply_cast]
@@ -141,7 +143,7 @@ theorem C04_value_at_encoder (src dst : Space) (R G B : Nat) (hR : R < 256) (hG 
       exact this
     have tri := abs_sub_le (x : ℝ) (rowApplyR (qmRow M k) ((toQ b32 (dec8 src R) : ℚ) : ℝ) ((toQ b32 (dec8 src G) : ℚ) : ℝ) ((toQ b32 (dec8 src B) : ℚ) : ℝ))
       (rowApplyR (qmRow M k) (e R) (e G) (e B))
-    have num : (4:ℝ) / 1000000 * 1 + 1 / 10 ^ 40 + 4 * (3 / 10000000) ≤ 52 / 10000000 := by norm_num
+    have num : (4:ℝ) / 1000000 * 1 + 1 / 10 ^ 40 + 4 * (3 / 10000000) ≤ 53 / 10000000 := by norm_num
     linarith
   have hc : c = pipeLin src dst (pairAdapt src dst) ⟨dec8 src R, dec8 src G, dec8 src B⟩ := by
     show pipeLin src dst (pairAdapt src dst) (fromNRGBA src R G B 255).1 = _
